@@ -292,7 +292,7 @@ def rule_await(ctx: Ctx):
     ctx._awaitflow = af
 
 
-def rule_flag(ctx: Ctx):
+def rule_flag(ctx: Ctx, rule: str = "C05.flag"):
     """Every builder whose returned closure invokes an MA slot un-awaited... or awaited ... must
     publish `is_coroutine` on the closure (so has_async_callbacks, hence the engine choice, sees it)."""
     rep = ctx.rep
@@ -336,14 +336,21 @@ def rule_flag(ctx: Ctx):
             continue
         n += 1
         if b.name in exempt:
-            rep.ok("C05.flag", b.loc(), f"builder `{b.qualname}` is exempt: {exempt[b.name]}")
+            rep.ok(rule, b.loc(), f"builder `{b.qualname}` is exempt: {exempt[b.name]}")
             continue
-        rep.check(bool(flagged), "C05.flag", b.loc(),
+        rep.check(bool(flagged), rule, b.loc(),
                   f"builder `{b.qualname}` publishes `is_coroutine` on the callable it returns (engine selection can see async operands)",
                   b.key, f"return {sorted(names)[0]}  # no `.is_coroutine = ...`")
         for vtxt, e in flagged.items():
-            rep.check(vtxt not in ("False", "None"), "C05.flag", e.loc(), f"`{b.qualname}` derives is_coroutine from what it wraps", b.key, norm_stmt(e.node))
-    rep.floor("C05.flag", "builders wrapping a callback slot", n, 5)
+            rep.check(vtxt not in ("False", "None"), rule, e.loc(), f"`{b.qualname}` derives is_coroutine from what it wraps", b.key, norm_stmt(e.node))
+    rep.floor(rule, "builders wrapping a callback slot", n, 5)
+    rule_flag_chain(ctx, rule)
+
+
+def rule_flag_chain(ctx: Ctx, rule: str = "C05.flag"):
+    """From the callable to the engine: adapter flag = iscoroutinefunction(<the callable itself>), wrapper flag read from the
+    adapter, `has_async_callbacks` = any wrapper flag, engine chosen from it."""
+    rep = ctx.rep
     # the adapter's flag comes from the signature, which comes from iscoroutinefunction
     fc = ctx.fn("SignatureAdapter.from_callable")
     ok = False
@@ -356,15 +363,15 @@ def rule_flag(ctx: Ctx):
                 isinstance(n_, (ast.Assign, ast.AnnAssign)) and any(isinstance(t_, ast.Name) and t_.id == fc.params[1]
                                                                     for t_ in (n_.targets if isinstance(n_, ast.Assign) else [n_.target]))
                 for n_ in own_nodes(fc.node))
-            rep.check(ok, "C05.flag", fc.loc(s), "SignatureAdapter.is_coroutine is iscoroutinefunction(<the callable itself>)", fc.key, norm_stmt(s))
+            rep.check(ok, rule, fc.loc(s), "SignatureAdapter.is_coroutine is iscoroutinefunction(<the callable itself>)", fc.key, norm_stmt(s))
     if not ok:
-        rep.violation("C05.flag", fc.loc(), "SignatureAdapter.from_callable does not compute is_coroutine", fc.key, "no is_coroutine assignment")
+        rep.violation(rule, fc.loc(), "SignatureAdapter.from_callable does not compute is_coroutine", fc.key, "no is_coroutine assignment")
     wi = ctx.fn("CallbackWrapper.__init__")
     got = None
     for s in own_nodes(wi.node):
         if isinstance(s, ast.Assign) and any(isinstance(t, ast.Attribute) and t.attr == "_iscoro" for t in s.targets):
             got = show(s.value)
-    rep.check(got is not None and "is_coroutine" in got and "callback" in got, "C05.flag", wi.loc(),
+    rep.check(got is not None and "is_coroutine" in got and "callback" in got, rule, wi.loc(),
               "the wrapper's coroutine flag is read from the adapted callable", wi.key, f"self._iscoro = {got}")
     aos = ctx.fn("CallbacksRegistry.async_or_sync")
     for p in ctx.paths(aos, exc_edges="none", comps_for_loops=True):
@@ -379,9 +386,9 @@ def rule_flag(ctx: Ctx):
                     and isinstance(gens[0].target, ast.Name) and show(gens[1].iter) == gens[0].target.id \
                     and isinstance(gens[1].target, ast.Name) and show(g.elt) == f"{gens[1].target.id}._iscoro":
                 ok = True
-        rep.check(ok, "C05.flag", aos.loc(), "has_async_callbacks = any wrapper of any executor is a coroutine", aos.key,
+        rep.check(ok, rule, aos.loc(), "has_async_callbacks = any wrapper of any executor is a coroutine", aos.key,
                   f"self.has_async_callbacks = {v}")
-    check_engine_choice(ctx, "C05.flag")
+    check_engine_choice(ctx, rule)
 
 
 def check_engine_choice(ctx: Ctx, rule: str):
